@@ -1,0 +1,18 @@
+//go:build verif
+
+// Contracts for the contract-based verification in /verif (comment-only file).
+
+package segverifier
+
+//@ import seg "github.com/scionproto/scion/pkg/segment"
+//@ macro entriesOK(ps) = (forall ek int :: 0 <= ek && ek < len(ps.ASEntries) ==> ps.ASEntries[ek].Signed != nil)
+
+//@ # ---- C24: a segment verifies only if EVERY AS entry verified, each under a verifier bound to that entry's
+//@ # ISD-AS and to the validity [segment timestamp, timestamp + lifetime of that entry's hop field]
+//@ func VerifySegment
+//@   props C24
+//@   requires verifier != nil && segment != nil && entriesOK(segment)
+//@   requires 0 <= segment.Info.Timestamp.ext && segment.Info.Timestamp.ext <= 0x2000000000000000
+//@   loop 1 invariant 0 <= (rangeindex+1) && (rangeindex+1) <= len(segment.ASEntries)
+//@   loop 1 invariant forall i int :: 0 <= i && i < (rangeindex+1) ==> seg.okEntry[i] && seg.okIA[i] == uint64(segment.ASEntries[i].Local) && seg.okNB[i] == segment.Info.Timestamp.ext && seg.okNA[i] == segment.Info.Timestamp.ext + (int64(segment.ASEntries[i].HopEntry.HopField.ExpTime)+1)*337500000000
+//@   ensures result == nil ==> forall i int :: 0 <= i && i < len(segment.ASEntries) ==> seg.okEntry[i] && seg.okIA[i] == uint64(segment.ASEntries[i].Local) && seg.okNB[i] == segment.Info.Timestamp.ext && seg.okNA[i] == segment.Info.Timestamp.ext + (int64(segment.ASEntries[i].HopEntry.HopField.ExpTime)+1)*337500000000
